@@ -481,6 +481,63 @@ def Wrapper.resolved (w : Wrapper) (target : JV) : Wrapper := { w with value := 
 def Rec.resolvedFrom (r target : Rec) : Rec :=
   { fld := fun g => if g == "Ref" then r.fld "Ref" else target.fld g, ext := target.ext }
 
+/-! ### the loaded document as a tree of Go values
+
+A whole document after `json.Unmarshal`, as the Go state the marshallers walk: plain values, reference wrappers
+(`Ref`, `Value`), struct kinds (their own `Ref` — "" for the kinds that have none —, the function that assembles
+the written object from the marshalled children: guards, key order, extension copy, all opaque here), slices and
+maps. Lists are spelled with the constructors `nilL`/`consL`, `nilM`/`consM` so that the type is not nested. -/
+
+inductive GoV
+  | leaf (v : JV)
+  | wrapper (ref : String) (hasValue : Bool) (value : GoV)
+  | struct (ref : String) (asm : List (String × JV) → JV) (fields : GoV)
+  | nilL
+  | consL (x : GoV) (rest : GoV)
+  | nilM
+  | consM (k : String) (x : GoV) (rest : GoV)
+
+def JV.elems : JV → List JV | .arr xs => xs | _ => []
+def JV.members : JV → Obj | .obj kvs => kvs | _ => []
+
+/-- the marshallers: a non-empty `Ref` is printed alone (wrapper template; `$ref` early return of a struct kind),
+    otherwise the value / the assembled object; slices and maps element by element -/
+def marshalG : GoV → JV
+  | .leaf v => v
+  | .wrapper ref hasValue value =>
+    if ref != "" then .obj [("$ref", .str ref)] else if hasValue then marshalG value else .null
+  | .struct ref asm fields =>
+    if ref != "" then .obj [("$ref", .str ref)] else asm (marshalG fields).members
+  | .nilL => .arr []
+  | .consL x rest => .arr (marshalG x :: (marshalG rest).elems)
+  | .nilM => .obj []
+  | .consM k x rest => .obj ((k, marshalG x) :: (marshalG rest).members)
+
+/-- The loader (`ResolveRefsIn`): it walks the document; at a wrapper with a reference it sets `Value` to whatever
+    the reference resolves to (`ρ`, arbitrary: which target, resolved how deep, from which file — all of that is
+    C02's business), at a struct kind with its own reference (path item) it copies the target's fields and
+    assembling function (`σ`, arbitrary) and keeps `Ref`; everywhere else it descends. -/
+def resolveG (ρ : String → GoV) (σ : String → (List (String × JV) → JV) × GoV) : GoV → GoV
+  | .leaf v => .leaf v
+  | .wrapper ref hasValue value =>
+    if ref != "" then .wrapper ref true (ρ ref) else .wrapper ref hasValue (resolveG ρ σ value)
+  | .struct ref asm fields =>
+    if ref != "" then .struct ref (σ ref).1 (σ ref).2 else .struct ref asm (resolveG ρ σ fields)
+  | .nilL => .nilL
+  | .consL x rest => .consL (resolveG ρ σ x) (resolveG ρ σ rest)
+  | .nilM => .nilM
+  | .consM k x rest => .consM k (resolveG ρ σ x) (resolveG ρ σ rest)
+
+/-- does the tree hold a reference anywhere (non-vacuity of the theorem) -/
+def GoV.hasRef : GoV → Bool
+  | .leaf _ => false
+  | .wrapper ref _ value => ref != "" || value.hasRef
+  | .struct ref _ fields => ref != "" || fields.hasRef
+  | .nilL => false
+  | .consL x rest => x.hasRef || rest.hasRef
+  | .nilM => false
+  | .consM _ x rest => x.hasRef || rest.hasRef
+
 /-! ### exclusion and side conditions of the deep stability theorem -/
 
 mutual
